@@ -164,12 +164,16 @@ def parse_vspec(path):
             else:
                 raise SliceError('%s: bad at-line: %s' % (path, rest))
             spec['ats'].append(cur)
-        elif key in ('sub', 'sig'):
+        elif key in ('sub', 'sig', 'subw'):
             m = re.match(r'\s*(?:(R\d+[a-z]?)\s+)?"((?:[^"\\]|\\.)*)"\s*=>\s*"((?:[^"\\]|\\.)*)"\s*$', rest)
             if not m:
                 raise SliceError('%s: bad %s-line: %s' % (path, key, rest))
             un = lambda s: s.replace('\\"', '"').replace('\\n', '\n').replace('\\\\', '\\')
-            (spec['subs'] if key == 'sub' else spec['sigsubs']).append((m.group(1) or 'R?', un(m.group(2)), un(m.group(3))))
+            if key == 'subw':
+                # whitespace-insensitive: any run of blanks / newlines in the source matches a blank of the pattern
+                spec['subs'].append((m.group(1) or 'R?', ('W', un(m.group(2))), un(m.group(3))))
+            else:
+                (spec['subs'] if key == 'sub' else spec['sigsubs']).append((m.group(1) or 'R?', un(m.group(2)), un(m.group(3))))
             cur = None
         else:
             raise SliceError('%s: unknown keyword %r' % (path, key))
@@ -667,6 +671,16 @@ class Weaver:
         lost = []     # anchors that no longer resolve: the woven text is skipped (a proof aid is missing, never a verdict)
         # declared substitutions first (exact text, must match)
         for rid, old, new in spec['subs']:
+            if isinstance(old, tuple):
+                rx = re.compile(r'\s*'.join(re.escape(tok) for tok in old[1].split()))
+                ms = list(rx.finditer(mt.text))
+                if not ms:
+                    log.append((rid, 'ANCHOR LOST: %s' % norm(old[1])))
+                    continue
+                for m_ in reversed(ms):
+                    mt.replace(m_.start(), m_.end(), new)
+                log.append((rid, '%s  =>  %s  (x%d)' % (norm(old[1]), norm(new), len(ms))))
+                continue
             cnt = mt.text.count(old)
             if cnt == 0:
                 log.append((rid, 'ANCHOR LOST: %s' % norm(old)))
